@@ -55,8 +55,22 @@ fn mixes_json_filters(e: &REnt) -> bool {
         })
 }
 
+fn selects_json_default(e: &REnt) -> bool {
+    e.sels.iter().any(|s| match s {
+        RSel::Json { f, .. } => f.default.is_some(),
+        RSel::Sub(sub) => selects_json_default(sub),
+        _ => false,
+    })
+}
+
 fn sql_error_class(msg: &str, rq: &RQuery) -> String {
     let m = msg.to_lowercase();
+    if rq.roots.iter().any(selects_json_default) && m.contains("syntax error") {
+        let head: String = m.chars().take(40).collect();
+        if head.contains("near \"as\"") || head.contains("near \",\"") || head.contains("near \"from\"") {
+            return "json-default-select".into();
+        }
+    }
     if rq.roots.iter().any(mixes_json_filters) {
         let head: String = m.chars().take(60).collect();
         if head.contains("and\"")
@@ -336,6 +350,7 @@ pub fn run_gen(case: &GenCase, replay: bool) -> Outcome {
     }
 
     let mut main_failed = false;
+    let mut main_set: Vec<Quirk> = vec![];
     match w.query(&text, &params) {
         Err(QueryError::Parse(msg)) => {
             o.label("parser-refused");
@@ -372,13 +387,13 @@ pub fn run_gen(case: &GenCase, replay: bool) -> Outcome {
                 println!("-- expected {}", serde_json::to_string(&exp_json(&expected)).unwrap());
             }
             if let Err(m) = matches(&real, &expected, "$") {
-                classify(&w, &rq, &real, &m, &text, &mut o);
+                main_set = classify(&w, &rq, &real, &m, &text, &mut o);
             }
         }
     }
 
     if let (Some(ws), false) = (&case.walk, main_failed) {
-        crate::walk::walk(&w, &rq, ws, case.wild, &mut o, trace);
+        crate::walk::walk(&w, &rq, ws, case.wild, &main_set, &mut o, trace);
     }
     o
 }
@@ -387,7 +402,7 @@ pub fn one_line(s: &str) -> String {
     s.split_whitespace().collect::<Vec<_>>().join(" ")
 }
 
-fn classify(w: &World, rq: &RQuery, real: &J, m: &Mismatch, text: &str, o: &mut Outcome) {
+fn classify(w: &World, rq: &RQuery, real: &J, m: &Mismatch, text: &str, o: &mut Outcome) -> Vec<Quirk> {
     for set in subsets(3) {
         let ev = Evaluator {
             schema: &w.schema,
@@ -416,7 +431,7 @@ fn classify(w: &World, rq: &RQuery, real: &J, m: &Mismatch, text: &str, o: &mut 
                     ),
                 );
             }
-            return;
+            return set;
         }
     }
     o.label("unexplained");
@@ -424,4 +439,5 @@ fn classify(w: &World, rq: &RQuery, real: &J, m: &Mismatch, text: &str, o: &mut 
         format!("unexplained:{}", m.kind),
         format!("at {}: {} | query: {}", m.path, m.detail, one_line(text)),
     );
+    vec![]
 }
